@@ -71,6 +71,7 @@ fn plan(u: &mut Unstructured, source: bool, can_fail: bool) -> Plan {
         on_drop: action(u),
         script,
         infinite,
+        panic_polls: 0,
     }
 }
 
@@ -176,7 +177,11 @@ pub fn decode_case(data: &[u8], fam: Family) -> Case {
             cfg.ctor = if b(u) % 3 == 0 { 3 } else { 2 };
             let n = b(u) % 24;
             for _ in 0..n {
-                cfg.initial.push(plan(u, false, can_fail));
+                let mut p = plan(u, false, can_fail);
+                if b(u) % 12 == 0 {
+                    p.panic_polls = 1 + b(u) % 2;
+                }
+                cfg.initial.push(p);
             }
         }
     }
